@@ -43,6 +43,9 @@ def stepFamilies (st : St) (cmd : List String) (got : String) : St × Verdict :=
   | none =>
   match stepL2R64 st cmd got with
   | some r => r
+  | none =>
+  match stepL2Par st cmd got with
+  | some r => r
   | none => (st, if got.startsWith "skip" then none else some "skip")
 
 /-- plane-level BSI tracking runs alongside the command families: the extra checks use the state BEFORE the line -/
